@@ -71,7 +71,7 @@ def oexc? : Sx → Option (Option Exc)
 
 def pil? : Sx → Option (Option Pil)
   | .atom "none" => some none
-  | .list [f, m, e, t] => do pure (some ⟨← str? f, ← str? m, ← e.bool?, ← t.bool?⟩)
+  | .list [f, m, e, t, w] => do pure (some ⟨← str? f, ← str? m, ← e.bool?, ← t.bool?, ← w.bool?⟩)
   | _ => none
 
 def content? : Sx → Option Content
@@ -105,12 +105,22 @@ def orient? : Sx → Option Orient
   | .list [a, f] => do pure (.explicit (← a.nat?) (← f.bool?))
   | _ => none
 
+def onat? : Sx → Option (Option Nat)
+  | .atom "none" => some none
+  | x => x.nat?.map some
+
+/-- `(optimize_images jpeg_quality dpi)`. -/
 def opts? : Sx → Option Opts
-  | .list [o, q] => do pure ⟨← o.bool?, ← q.bool?⟩
+  | .list [o, q, d] => do pure ⟨← o.bool?, ← onat? q, ← onat? d⟩
   | _ => none
 
 def req? : Sx → Option Req
   | .list [u, o, m] => do pure ⟨← str? u, ← orient? o, ← ostr? m⟩
+  | _ => none
+
+/-- A request with the options of its call: `(url orientation forced-mime opts)`. -/
+def optsReq? : Sx → Option (Opts × Req)
+  | .list [u, o, m, opts] => do pure (← opts? opts, ⟨← str? u, ← orient? o, ← ostr? m⟩)
   | _ => none
 
 def fontSrc? : Sx → Option FontSrc
@@ -208,6 +218,7 @@ def showONat : Option Nat → String
 /-! ### document level -/
 
 def imgRef? : Sx → Option Doc.ImgRef
+  | .list [.atom "inlinesvg", c] => do pure ⟨.inlineSvg, none, none, .fromImage, none, some (← c.nat?)⟩
   | .list [k, u, a, o, m] => do
     let kind ← match k with
       | .atom "img" => some Doc.ImgKind.img
@@ -218,7 +229,7 @@ def imgRef? : Sx → Option Doc.ImgRef
       | .atom "content" => some .content
       | .atom "borderimage" => some .borderImage
       | _ => none
-    pure ⟨kind, ← ostr? u, ← ostr? a, ← orient? o, ← ostr? m⟩
+    pure ⟨kind, ← ostr? u, ← ostr? a, ← orient? o, ← ostr? m, none⟩
   | _ => none
 
 def fsEntry? : Sx → Option (String × Nat)
@@ -273,7 +284,7 @@ def srcTag : Src → String
   | .memReencoded => "reencoded"
 
 def imageTag (cache : Cache) (fetcher : Fetcher) (opts : Opts) (req : Req) : String :=
-  match cache.find? req.key with
+  match cache.find? (req.key opts) with
   | some (some _) => "img:cache-hit-image"
   | some none => "img:cache-hit-failure"
   | none =>
@@ -290,14 +301,15 @@ def imageTag (cache : Cache) (fetcher : Fetcher) (opts : Opts) (req : Req) : Str
         else match c.pillow with
           | some p =>
             let fn := if urlScheme (r.redirected.getD req.url) == "file" then some (urlFilename (r.redirected.getD req.url)) else none
-            let (fmt, src) := rasterInit p req.orient fn opts
-            "img:raster-" ++ fmt ++ "-" ++ srcTag src
+            match rasterInit p req.orient fn opts with
+            | .ok (fmt, src) => "img:raster-" ++ fmt ++ "-" ++ srcTag src
+            | .error _ => "img:error-reencoding-fails"
           | none => if svgMime then "img:error-svg-mime" else if c.xmlOk then "img:svg-last-chance" else "img:error-undecodable"
 
-def imagesTags (fetcher : Fetcher) (opts : Opts) : Cache → List Req → List String
+def imagesTags (fetcher : Fetcher) : Cache → List (Opts × Req) → List String
   | _, [] => []
-  | cache, req :: rest =>
-    imageTag cache fetcher opts req :: imagesTags fetcher opts (getImage cache fetcher opts req).1 rest
+  | cache, (opts, req) :: rest =>
+    imageTag cache fetcher opts req :: imagesTags fetcher (getImage cache fetcher opts req).1 rest
 
 def fetchedTag (pre : String) : Fetched → String
   | .raises _ => pre ++ ":fetcher-raises"
@@ -381,12 +393,14 @@ def styleElTags (d : String) (el : StyleEl) : List String :=
 def svgTags (fetcher : Fetcher) (opts : Opts) : Cache → List Doc.SvgItem → List String
   | _, [] => []
   | cache, .useExternal _ :: rest => "svg:external-use-direct-call" :: svgTags fetcher opts cache rest
-  | cache, .image url :: rest =>
-    let r := getImage cache fetcher opts ⟨url.getD "None", .fromImage, some "image/*"⟩
-    match r.2.2 with
-    | .error _ => [(if url.isNone then "svg:image-no-href" else "svg:image") ++ "-escapes-swallowed"]
-    | .ok v => ((if url.isNone then "svg:image-no-href" else "svg:image") ++ (if v.isSome then "-loaded" else "-none")) ::
-        svgTags fetcher opts r.1 rest
+  | cache, .image none :: rest => "svg:image-no-href-skipped" :: svgTags fetcher opts cache rest
+  | cache, .image (some url) :: rest =>
+    if url == "" then "svg:image-no-href-skipped" :: svgTags fetcher opts cache rest
+    else
+      let r := getImage cache fetcher opts ⟨url, .fromImage, some "image/*"⟩
+      match r.2.2 with
+      | .error _ => ["svg:image-escapes-swallowed"]
+      | .ok v => ("svg:image" ++ (if v.isSome then "-loaded" else "-none")) :: svgTags fetcher opts r.1 rest
 
 def urljoinTag (base url : List Char) : String :=
   if base.isEmpty then "join:no-base"
@@ -407,8 +421,8 @@ def tagsFor (cmd : String) (args : List Sx) : Option (List String) :=
   | "fetch", [f, _, b] => do
     let f ← fetched? f
     pure [fetchedTag "fetch" f ++ (match b with | .atom "ok" => "/body-returns" | _ => "/body-raises")]
-  | "images", [o, f, .list reqs] => do
-    pure (imagesTags (← fetcher? f) (← opts? o) [] (← allSome req? reqs))
+  | "images", [f, .list reqs] => do
+    pure (imagesTags (← fetcher? f) [] (← allSome optsReq? reqs))
   | "fonts", [f, .list faces] => do pure (facesTags (← fetcher? f) {} (← allSome face? faces))
   | "css", [d, .list els] => do
     let d ← str? d
@@ -428,7 +442,7 @@ def tagsFor (cmd : String) (args : List Sx) : Option (List String) :=
         | .ok _, .error _ => ["doc:write-escapes"]
         | _, _ => []) ++
       (if o.opens.isEmpty then [] else ["doc:local-file-read"]) ++
-      ((d.images.filterMap (Doc.svgOfRef cache)).flatMap (fun c => svgTags d.fetcher d.opts cache ((d.svgInfo.lookup c).getD []))))
+      ((d.images.filterMap (Doc.svgOfRef d.opts cache)).flatMap (fun kc => svgTags d.fetcher d.opts cache ((d.svgInfo.lookup kc.2).getD []))))
   | _, _ => none
 
 /-! ### commands -/
@@ -446,19 +460,19 @@ def handle (cmd : String) (args : List Sx) : Option String :=
     pure (showEvs evs ++ " " ++ match out with
       | .ok (red, mime) => "ok red=" ++ encO red ++ " mime=" ++ encO mime
       | .error e => showExcFull e)
-  -- `images <opts> <fetcher> (<req> …)`
-  | "images", [o, f, .list reqs] => do
-    let opts ← opts? o
+  -- `images <fetcher> ((url orientation forced-mime opts) …)`
+  | "images", [f, .list reqs] => do
     let fetcher ← fetcher? f
-    let reqs ← allSome req? reqs
-    let (outs, cache) := runImages fetcher opts [] reqs
+    let reqs ← allSome optsReq? reqs
+    let (outs, cache) := runImages fetcher [] reqs
     pure (";".intercalate (outs.map (fun (evs, out) => showLog evs ++ showImgOut out)) ++
       " cache=[" ++ ",".intercalate (cache.reverse.map (fun (k, v) => enc k ++ "=" ++ showImg v)) ++ "]")
   -- `raster <pil> <orient> <filename> <opts>`
   | "raster", [p, o, fn, opts] => do
     let p ← (← pil? p)
-    let (fmt, src) := rasterInit p (← orient? o) (← ostr? fn) (← opts? opts)
-    pure (fmt ++ " " ++ showSrc src)
+    match rasterInit p (← orient? o) (← ostr? fn) (← opts? opts) with
+    | .ok (fmt, src) => pure (fmt ++ " " ++ showSrc src)
+    | .error e => pure (showExc e)
   -- `atwrite <img src kind> <fs content | none>`
   | "atwrite", [src, fn, fsv] => do
     let fn ← str? fn
